@@ -212,7 +212,7 @@ fn collect_msgs<'a>(ops: &'a [Op], out: &mut BTreeMap<u64, &'a Msg>) {
                 out.insert(m.id, m);
                 collect_msgs(&m.steps, out);
             }
-            Op::Cancel { op, .. } | Op::Unpolled(op) => collect_msgs(std::slice::from_ref(op), out),
+            Op::Cancel { op, .. } | Op::Unpolled(op) | Op::Deferred { op, .. } => collect_msgs(std::slice::from_ref(op), out),
             Op::Fork { ops, .. } => collect_msgs(ops, out),
             Op::Join(ops) | Op::Race(ops) => collect_msgs(ops, out),
             _ => {}
@@ -224,7 +224,7 @@ pub fn ops_contain(ops: &[Op], pred: &dyn Fn(&Op) -> bool) -> bool {
     ops.iter().any(|o| {
         pred(o)
             || match o {
-                Op::Cancel { op, .. } | Op::Unpolled(op) => ops_contain(std::slice::from_ref(op), pred),
+                Op::Cancel { op, .. } | Op::Unpolled(op) | Op::Deferred { op, .. } => ops_contain(std::slice::from_ref(op), pred),
                 Op::Fork { ops, .. } => ops_contain(ops, pred),
                 Op::Join(ops) | Op::Race(ops) => ops_contain(ops, pred),
                 _ => false,
@@ -432,7 +432,7 @@ impl<'a> History<'a> {
     pub fn find_op(&self, who: Who, k: u32) -> Option<&Op> {
         fn unwrap_cancel(o: &Op) -> &Op {
             match o {
-                Op::Cancel { op, .. } | Op::Unpolled(op) => unwrap_cancel(op),
+                Op::Cancel { op, .. } | Op::Unpolled(op) | Op::Deferred { op, .. } => unwrap_cancel(op),
                 x => x,
             }
         }
@@ -450,7 +450,7 @@ impl<'a> History<'a> {
                             return Some(x);
                         }
                     }
-                    Op::Cancel { op, .. } | Op::Unpolled(op) => {
+                    Op::Cancel { op, .. } | Op::Unpolled(op) | Op::Deferred { op, .. } => {
                         if let Some(x) = find_fork(std::slice::from_ref(op), id) {
                             return Some(x);
                         }
